@@ -1048,6 +1048,29 @@ impl Gen {
                 _ => format!("{}", p),
             }
         };
+        // the same number in an unusual but valid spelling (prices and sizes are strings on Jura): drawn from a
+        // fork so that the other orders stay what they were
+        let respell = |rng: &mut Rng, s: String| -> String {
+            let mut r = rng.fork("spelling");
+            if !r.one_in(40) || s.starts_with('-') {
+                return s;
+            }
+            match r.usize(4) {
+                0 => format!("+{s}"),
+                1 => format!("0{s}"),
+                2 => {
+                    if s.contains('.') {
+                        format!("{s}0")
+                    } else {
+                        format!("{s}.0")
+                    }
+                }
+                _ => match s.parse::<f64>() {
+                    Ok(v) if v > 0.0 => format!("{:e}", v),
+                    _ => s,
+                },
+            }
+        };
         let mut px = price_near(&mut self.rng, ds, &symbol, k + 1);
         if kind_idx < 2 && self.rng.one_in(2) {
             // around the 10% slippage boundary
@@ -1059,7 +1082,19 @@ impl Gen {
                 px = 0.25;
             }
         }
-        let limit_px = fmt_px(&mut self.rng, px);
+        let limit_px = {
+            let plain = fmt_px(&mut self.rng, px);
+            let spelled = respell(&mut self.rng, plain.clone());
+            // only if it is the same number to the last bit
+            if spelled.parse::<f64>().ok().map(f64::to_bits) == plain.parse::<f64>().ok().map(f64::to_bits) {
+                if spelled != plain {
+                    sim.ctx.bump("probe_price_in_unusual_spelling");
+                }
+                spelled
+            } else {
+                plain
+            }
+        };
         let via_serde = self.rng.chance(self.cfg.serde_p);
         let kind = match kind_idx / 2 {
             0 => JKind::Ioc,
